@@ -24,6 +24,14 @@ pub broadcast axiom fn axiom_cloned_end_state(a: (bool, TerminalID), b: (bool, T
 pub broadcast axiom fn axiom_stateid_cmp()
     ensures #[trigger] vstd::std_specs::btree::key_obeys_cmp_spec::<StateID>();
 
+// TRUSTED std contract: the greatest element (for key types whose Ord is the order of an integer key, see ord_key)
+pub assume_specification<T: Ord, A: Allocator + Clone>[ BTreeSet::<T, A>::last ](s: &BTreeSet<T, A>) -> (r: Option<&T>)
+    ensures
+        match r {
+            Some(x) => s@.contains(*x) && (has_ord_key::<T>() ==> forall|y: T| #[trigger] s@.contains(y) ==> ord_key(y) <= ord_key(*x)),
+            None => forall|y: T| !#[trigger] s@.contains(y),
+        };
+
 #[verifier::external_body]
 pub fn verif_btreeset_from_vec(v: Vec<StateID>) -> (r: BTreeSet<StateID>)
     ensures forall|x: StateID| #[trigger] r@.contains(x) <==> v@.contains(x)
